@@ -15,13 +15,22 @@ RULE = ('every boolean array of length <= L (quick L=10, thorough L=13) x every 
         'plus run-length-biased random arrays up to 1500 cycles (a quarter of them passed as strided views of a '
         'larger array); non-trivial = the array contains both a run that is kept and a run that is cleared, or a '
         'run touching an end of the array. Inputs outside the quantifier (negative min_n_cycles, Python lists, '
-        'negative count with an empty array) are generated too but judged by the model comparison only')
+        'negative count with an empty array) are generated too but judged by the model comparison only. About half of '
+        'the counts are handed over as numpy integer scalars of every width and signedness (int8 .. int64, uint8 .. '
+        'uint64, intp, uintp, longlong) instead of a Python int, about 6 % as a float (Python float, float64, float32) '
+        'with a value v in (n-1, n], where the rule is applied literally (a run of length L is kept iff L >= v)')
 EXHAUSTIVE = {'quick': True, 'thorough': True}
 ASSUMPTIONS = ['the statement oracle judges boolean numpy arrays with an integer min_n_cycles >= 0 (the quantifier of '
                'the property); for negative counts and list arguments, and for the dtype of the returned array '
                '(boolean), only the model comparison applies (Model/TableRuns.v check_min_burst_cycles: ValueError, '
-               'early return of an empty array, bool dtype); float-valued counts are not generated (min_n_cycles is '
-               'documented as an int)',
+               'early return of an empty array, bool dtype)',
+               'the statement says "every min_n_cycles >= 0" and nothing about integrality: where the function '
+               'accepts a float-valued count v the oracle applies "length >= v is kept, shorter is cleared" literally '
+               '(a run of 2 is shorter than 2.5); a float count that is REJECTED gets no oracle verdict (the parameter '
+               'is documented as int) and is left to the model comparison. The Coq model is over Z: it is evaluated at '
+               'ceil(v), which gives the same set of kept runs because run lengths are integers',
+               'the type of the count (Python int, any numpy integer scalar) is not an input of the model: the '
+               'result must not depend on it',
                'label values are read through bool(); an idempotence failure is judged on those values']
 ERRMAP = {'Value': 'EValue', 'Index': 'EIndex', 'Key': 'EKey', 'Type': 'EType'}
 
@@ -47,6 +56,7 @@ def cases(rng, tier):
     for c in out:
         if c['kind'] == 'random':
             c['view'] = rng.random() < 0.25      # passed as a strided view of a larger array
+    nvalid = len(out)
     # outside the property's quantifier: kept for the model comparison, never judged by the oracle
     out.append({'kind': 'invalid', 'len': 4, 'mask': 6, 'n': -1})
     out.append({'kind': 'invalid', 'len': 0, 'mask': 0, 'n': -1})
@@ -56,7 +66,37 @@ def cases(rng, tier):
         ln = rng.choice([0, 1, 2, 3, 6, 9])
         out.append({'kind': rng.choice(['invalid', 'invalid', 'invalid_list']), 'len': ln, 'mask': rng.getrandbits(ln) if ln else 0,
                     'n': rng.choice([-1, -2, -7])})
+    # how the count is handed over (drawn last: arrays and counts are those of earlier runs).  The property quantifies
+    # over every min_n_cycles >= 0 and says nothing about its Python type.
+    for i, c in enumerate(out):
+        r = rng.random()
+        if i >= nvalid:
+            if c['kind'] == 'invalid' and r < 0.5:
+                c['ntype'] = rng.choice(SIGNED)
+            continue
+        if r < 0.06:
+            c['ntype'] = rng.choice(FLOATS)
+            # a value v with ceil(v) == n (exactly representable in float32): n, n-1/4, n-1/2, n-3/4
+            c['nval'] = float(c['n']) - (rng.choice([0.0, 0.25, 0.5, 0.5, 0.75]) if c['n'] >= 1 else 0.0)
+        elif r < 0.55:
+            c['ntype'] = rng.choice(SIGNED + UNSIGNED)
     return out
+
+
+SIGNED = ['int8', 'int16', 'int32', 'int64', 'intp', 'longlong']
+UNSIGNED = ['uint8', 'uint16', 'uint32', 'uint64', 'uintp']
+FLOATS = ['float', 'float', 'float64', 'float32']
+
+
+def _count(c):
+    """The min_n_cycles object handed to the implementation."""
+    t = c.get('ntype', 'int')
+    v = c['nval'] if 'nval' in c else c['n']
+    if t == 'int':
+        return int(v)
+    if t == 'float':
+        return float(v)
+    return getattr(np, t)(v)
 
 
 def _bits(c):
@@ -74,10 +114,10 @@ def run_impl(c):
     else:
         arr = arr.copy()
     try:
-        r = check_min_burst_cycles([bool(x) for x in arr] if c['kind'] == 'invalid_list' else arr, min_n_cycles=c['n'])
+        r = check_min_burst_cycles([bool(x) for x in arr] if c['kind'] == 'invalid_list' else arr, min_n_cycles=_count(c))
         isbool = bool(getattr(r, 'dtype', None) == np.bool_)
         r = np.asarray(r)
-        r2 = check_min_burst_cycles(np.array(r, dtype=bool).copy(), min_n_cycles=c['n'])
+        r2 = check_min_burst_cycles(np.array(r, dtype=bool).copy(), min_n_cycles=_count(c))
     except Exception as e:
         return {'err': exc_kind(e)}
     return {'len': int(r.shape[0]) if r.ndim == 1 else -1, 'mask': coqio.mask_of([bool(x) for x in r.ravel()]),
@@ -104,17 +144,31 @@ def oracle(c, o):
     if c['kind'].startswith('invalid'):
         return None      # outside the quantifier (boolean arrays, min_n_cycles >= 0): model comparison only
     if 'err' in o:
-        return 'raised %s on a valid input' % o['err']
+        if 'nval' in c:
+            return None      # a float-valued count that is rejected: documented as int, model comparison only
+        return 'raised %s on a valid input%s' % (o['err'], _how(c))
     if o['len'] != c['len']:
         return 'length changed: %d -> %d' % (c['len'], o['len'])
-    want = coqio.mask_of(_spec(_bits(c), c['n']))
+    want = coqio.mask_of(_spec(_bits(c), c.get('nval', c['n'])))      # literally: kept iff length >= min_n_cycles
     if o['mask'] != want:
         if o['mask'] & ~c['mask']:
-            return 'a False became True'
-        return 'runs not kept/cleared as a whole: got %s want %s' % (bin(o['mask']), bin(want))
+            return 'a False became True' + _how(c)
+        return 'runs not kept/cleared as a whole: got %s want %s%s' % (bin(o['mask']), bin(want), _how(c))
     if o['twice'] != o['mask']:
-        return 'not idempotent'
+        return 'not idempotent' + _how(c)
     return None
+
+
+def _how(c):
+    if 'ntype' not in c:
+        return ''
+    return ' (min_n_cycles = %s(%r))' % (c['ntype'], c.get('nval', c['n']))
+
+
+def kind_of(c, o):
+    t = c.get('ntype')
+    return c['kind'] + ('' if t is None else '/count-float' if 'nval' in c else '/count-np-unsigned' if t in UNSIGNED
+                        else '/count-np-signed')
 
 
 def nontrivial(c, o):
@@ -136,6 +190,11 @@ def shrink(c):
     bits = _bits(c)
     for i in range(len(bits)):
         b = bits[:i] + bits[i + 1:]
-        yield {'kind': 'shrunk', 'len': len(b), 'mask': coqio.mask_of(b), 'n': c['n']}
-    if c['n'] > 0:
-        yield dict(c, n=c['n'] - 1, kind='shrunk')
+        yield dict({k: c[k] for k in ('ntype', 'nval') if k in c}, kind='shrunk', len=len(b), mask=coqio.mask_of(b), n=c['n'])
+    if c['n'] > 0 and c.get('nval', 1) >= 1:
+        d = dict(c, n=c['n'] - 1, kind='shrunk')
+        if 'nval' in c:
+            d['nval'] = c['nval'] - 1
+        yield d
+    if 'ntype' in c and 'nval' not in c:
+        yield {k: v for k, v in dict(c, kind='shrunk').items() if k != 'ntype'}
